@@ -77,6 +77,15 @@ fn interp(req: &Value) -> R {
                 end = json!("bound");
                 break;
             }
+            // Iterator::size_hint before every step (what collect() / zip() / extend() consult)
+            if let Err(p) = guarded(|| {
+                let (lo, hi) = a.size_hint();
+                hi.map_or(true, |h| lo <= h)
+            }) {
+                end = json!("panic");
+                detail = p;
+                break;
+            }
             match guarded(|| a.next()) {
                 Ok(None) => break,
                 Ok(Some(Ok(s))) => {
@@ -98,6 +107,11 @@ fn interp(req: &Value) -> R {
                 }
             }
         }
+        // ... and once more after the loop has ended (an adaptor may ask a finished iterator again)
+        let hint_after = match guarded(|| a.size_hint()) {
+            Ok((lo, hi)) => json!({"lo": lo, "hi": hi}),
+            Err(p) => json!({ "panic": p }),
+        };
         let post = match guarded(|| a.state()) {
             Ok(s) => state_json(&s),
             Err(p) => json!({ "panic": p }),
@@ -113,6 +127,16 @@ fn interp(req: &Value) -> R {
             Ok(v) => json!(v),
             Err(p) => json!({ "panic": p }),
         };
+        o["hint_after"] = hint_after;
+        // the same program consumed through an iterator adaptor (collect), bounded by take()
+        if bo(req, "collect") {
+            if let Ok(Ok(mut c)) = guarded(|| make(req)) {
+                o["collect"] = match guarded(|| c.by_ref().take(max_steps + 2).map(|r| r.is_ok()).collect::<Vec<bool>>()) {
+                    Ok(v) => json!({"n": v.len(), "n_ok": v.iter().filter(|x| **x).count(), "post": state_json(&c.state())}),
+                    Err(p) => json!({ "panic": p }),
+                };
+            }
+        }
         o["step"] = json!({"n_ok": n_ok, "end": end, "detail": detail, "last_ok": last_ok, "post": post, "script_index": a.script_index(), "at": at});
         if trace {
             o["step"]["trace"] = Value::Array(tr);
